@@ -203,7 +203,7 @@ theorem sample_array_printable : coreExp (.prim "[1, 2, 3]") = true := by
 theorem sample_printable : printable sampleProgram = true := by
   simp [printable, coreProgram, sampleProgram, coreExp, coreList, coreIdx, coreIters, coreIter, coreFor, coreName,
     coreType, printableIterVar, notForHead, constraintToks, domainToks, cnameToks, fmtToks, varListToks, sample_array_printable,
-    isRangeSugar, printsParen, forToks, binKwTok, blockKindErr, i64Max, Gen.scopedKinds, Gen.blockKinds, Gen.blockArity]
+    printsParen, forToks, binKwTok, blockKindErr, i64Max, Gen.scopedKinds, Gen.blockKinds, Gen.blockArity]
   decide
 
 /-- … and so the round trip holds for it -/
@@ -241,5 +241,39 @@ theorem text_solve_and_names :
     ({ objKind := .solve, objective := .bool true, constraints := [], constants := [], domains := [] } : PModel).text = "solve\ns.t.\n"
     ∧ varText "_u" = "_u" ∧ varText "$_v" = "$_v" ∧ varText "__w" = "__w" ∧ varText "x_1" = "\\x_1" := by
   refine ⟨by simp [PModel.text, ObjKind.text], ?_, ?_, ?_, ?_⟩ <;> simp [varText, needsEscape] <;> decide
+
+/-! ### regression theorems for the printer repairs 10f80da / 7352fcb (the inputs of the former findings) -/
+
+/-- the range sugar is written only where an iterator is expected: `len(range(0, 3, false))` keeps the call form,
+`sum(i in 0..3) { i }` the sugar (C11-range-sugar-outside-iterator, repaired in 10f80da) -/
+theorem text_range_sugar_only_in_iterators :
+    fmtExp (.call "len" [.call "range" [.int 0, .int 3, .bool false]]) = "len(range(0, 3, false))"
+    ∧ fmtExp (.scoped "sum" [.single "i"] [.call "range" [.int 0, .int 3, .bool false]] (.var "i")) = "sum(i in 0..3) { i }"
+    ∧ fmtExp (.scoped "sum" [.single "i"] [.call "range" [.int 0, .var "n", .bool true]] (.var "i")) = "sum(i in 0..=n) { i }" := by
+  simp [fmtExp, fmtList, fmtIters, fmtIter, iterText, callText, joinWith, wrapLeaf, PExp.isLeaf, IterVar.text, varText, needsEscape,
+    natDigits, digitChar]
+
+/-- an index of a compound variable that is no non-negative integer, integral decimal, name fragment or variable is
+written in braces: `x_{1.5}`, `x_{"a"}`; `x_{2}` and the name fragment `_2` stay bare (C11-float-index-printed-bare,
+C11-string-index-printed-bare, repaired in 7352fcb) -/
+theorem text_index_braces :
+    fmtExp (.cvar "x" [.num "1.5"]) = "x_{1.5}"
+    ∧ fmtExp (.cvar "x" [.str "a"]) = "x_{\"a\"}"
+    ∧ fmtExp (.cvar "x" [.int 2, .var "i"]) = "x_2_i"
+    ∧ fmtExp (.cvar "x" [.num "2"]) = "x_2"
+    ∧ fmtExp (.cvar "set" [.str "_2"]) = "set__2" := by
+  refine ⟨?_, ?_, ?_, ?_, ?_⟩ <;>
+    simp [fmtExp, fmtIndexes, indexText, joinWith, numIndexBare, strIndexBare, isDigit, isLetter, extraLetters, natDigits, digitChar] <;> decide
+
+/-- … and these trees are in the printable fragment, so `parse_format_printable_exp` gives their round trip: the
+exceptions the fragment carried for the two defects are gone -/
+theorem repaired_inputs_printable :
+    coreExp (.call "len" [.call "range" [.int 0, .int 3, .bool false]]) = true
+    ∧ coreExp (.cvar "x" [.num "1.5"]) = true
+    ∧ coreExp (.cvar "x" [.str "a", .var "i"]) = true
+    ∧ coreExp (.cvar "set" [.str "_2"]) = false := by
+  refine ⟨?_, ?_, ?_, ?_⟩ <;>
+    simp [coreExp, coreList, coreIdx, isFunctionName, isPlainRun, isLetter, isDigit, extraLetters, i64Max, isFloatText,
+      numIndexBare, strIndexBare] <;> decide
 
 end Rooc.Props.C11
